@@ -22,11 +22,14 @@ Definition issued_t (tr : list (micro * clk)) : list (Z * Z) := flat_map stamp t
 Definition pending_stamped (c0 : list Z) (tr : list (micro * clk)) (s : cstate) : list (Z * Z) :=
   skipn (length (committed s) - length c0) (issued_t tr).
 
-(* event-write calls made of one statement block *)
-Definition single_block_op (o : op) : Prop :=
+(* event-write calls: insert_one, replace, replace_last, delete and insert_many with any mix
+   of id-carrying and id-less events (also an insert_many in which a statement raises).  Each
+   is a block of write statements followed by ONE conditional_commit (insert_many: since
+   a00ceb1). *)
+Definition event_write_op (o : op) : Prop :=
   match o with
   | InsertOne _ | ReplaceLast _ | Replace _ | Delete _ => True
-  | InsertMany [] _ => True
+  | InsertMany _ _ | InsertManyFailed _ _ _ => True
   | _ => False
   end.
 
@@ -42,32 +45,61 @@ Proof.
   - exact H1.
 Qed.
 
-Lemma age_flush_block : forall lazy s m k c1 c2 t,
-  writes_of_micro m <> [] \/ m = ExecMany [] ->
-  mono_from t [(m, c1); (CondCommit k, c2)] ->
-  t - last_commit s > MAX_AGE ->
-  pending (run lazy s [(m, c1); (CondCommit k, c2)]) = [].
+Lemma mono_from_le : forall tr t t', t' <= t -> mono_from t tr -> mono_from t' tr.
+Proof. intros [|[m c] tr] t t' H; cbn; [auto|]. intros (H1 & H2); split; [lia|exact H2]. Qed.
+
+(* the readings of a step inside a monotone trace *)
+Lemma mono_from_mid : forall a t m c rest,
+  mono_from t (a ++ (m, c) :: rest) ->
+  t <= r1 c /\ r1 c <= r2 c /\ r2 c <= r3 c /\ mono_from (r3 c) rest.
 Proof.
-  intros lazy s m k c1 c2 t Hm (H1 & H2 & H3 & H4 & H5 & H6 & _) Hage.
-  cbn [run fold_left]. unfold micro_step. cbn [fst snd].
-  destruct m; cbn in Hm; try (destruct Hm; congruence);
-    apply age_flush_cond; cbn; lia.
+  induction a as [|[m0 c0] a IH]; intros t m c rest H.
+  - cbn in H. tauto.
+  - cbn [app mono_from] in H. destruct H as (H1 & H2 & H3 & H4).
+    destruct (IH _ _ _ _ H4) as (K1 & K2 & K3 & K4). repeat split; try assumption. lia.
+Qed.
+
+(* a block: any number of write statements, then one conditional_commit *)
+Lemma age_flush_block : forall lazy s tpre k c t,
+  Forall is_write (map fst tpre) ->
+  mono_from t (tpre ++ [(CondCommit k, c)]) ->
+  t - last_commit s > MAX_AGE ->
+  pending (run lazy s (tpre ++ [(CondCommit k, c)])) = [].
+Proof.
+  intros lazy s tpre k c t Hw Hm Hage.
+  apply mono_from_mid in Hm. destruct Hm as (H1 & H2 & _).
+  rewrite run_app, (run_writes lazy tpre s Hw). cbn [run fold_left]. unfold micro_step. cbn [fst snd].
+  apply age_flush_cond. lia.
+Qed.
+
+Lemma event_write_split : forall o, event_write_op o ->
+  exists pre k, expand o = pre ++ [CondCommit k] /\ Forall is_write pre.
+Proof.
+  intros o Ho. destruct o; cbn in Ho; try contradiction;
+    cbn [expand script_replace script__replace app].
+  - exists [Exec w], 1. split; [reflexivity|repeat constructor].
+  - exists (flat_map script__replace ups ++ [ExecMany rows]), (Z.of_nat (length ups + length rows)).
+    split; [rewrite <- app_assoc; reflexivity|].
+    apply Forall_app. split; [apply upserts_are_writes|repeat constructor].
+  - exists [Exec w], 1. split; [reflexivity|repeat constructor].
+  - exists [Exec w], 1. split; [reflexivity|repeat constructor].
+  - exists [Exec w], 1. split; [reflexivity|repeat constructor].
+  - exists (flat_map script__replace ups ++ [ExecMany done]),
+      (Z.of_nat (length ups + (length done + rest))).
+    split; [rewrite <- app_assoc; reflexivity|].
+    apply Forall_app. split; [apply upserts_are_writes|repeat constructor].
 Qed.
 
 Lemma age_flush_op : forall lazy s o tro t,
-  single_block_op o -> map fst tro = expand o ->
+  event_write_op o -> map fst tro = expand o ->
   mono_from t tro -> t - last_commit s > MAX_AGE ->
   pending (run lazy s tro) = [].
 Proof.
   intros lazy s o tro t Ho Htro Hm Hage.
-  destruct o; cbn in Ho; try contradiction;
-    try (destruct ups; [|contradiction]);
-    cbn [expand script_replace flat_map app] in Htro;
-    repeat (apply map_fst_cons in Htro; destruct Htro as (? & ? & -> & Htro));
-    apply map_eq_nil in Htro; subst;
-    (eapply age_flush_block; [|exact Hm|exact Hage]);
-    try (left; discriminate).
-  destruct rows; [right; reflexivity|left; discriminate].
+  destruct (event_write_split o Ho) as (pre & k & E & Hpre). rewrite E in Htro.
+  apply map_fst_block in Htro. destruct Htro as (tpre & c & tr' & -> & Hmpre & Hnil).
+  apply map_eq_nil in Hnil. subst tr'.
+  eapply age_flush_block; [rewrite Hmpre; exact Hpre|exact Hm|exact Hage].
 Qed.
 
 (* ---- age bound ---- *)
@@ -76,44 +108,59 @@ Qed.
 Definition age_inv (s : cstate) (G : list (Z * Z)) : Prop :=
   map fst G = pending s /\ forall w t, In (w, t) G -> t - last_commit s <= MAX_AGE.
 
-Lemma mono_from_le : forall tr t t', t' <= t -> mono_from t tr -> mono_from t' tr.
-Proof. intros [|[m c] tr] t t' H; cbn; [auto|]. intros (H1 & H2); split; [lia|exact H2]. Qed.
-
 Lemma stamp_fst : forall mc, map fst (stamp mc) = writes_of_micro (fst mc).
 Proof.
   intros [m c]. unfold stamp. cbn [fst snd]. rewrite map_map. cbn. apply map_id.
 Qed.
 
-(* one counted block: statement(s) followed by their conditional_commit *)
-Lemma age_block : forall lazy s G m k c1 c2 t,
-  age_inv s G -> no_commit m ->
-  mono_from t [(m, c1); (CondCommit k, c2)] ->
-  let s' := run lazy s [(m, c1); (CondCommit k, c2)] in
-  (age_inv s' (G ++ stamp (m, c1)) /\ committed s' = committed s) \/
-  (age_inv s' [] /\ committed s' = committed s ++ map fst (G ++ stamp (m, c1))).
+Lemma issued_t_fst : forall tr, map fst (issued_t tr) = twrites tr.
 Proof.
-  intros lazy s G m k c1 c2 t [HG Hage] Hm (H1 & H2 & H3 & H4 & H5 & H6 & _) s'.
-  set (s1 := micro_step lazy s (m, c1)).
-  assert (Hs1 : s1 = add_pending s (writes_of_micro m)).
-  { unfold s1, micro_step. cbn [fst]. destruct m; cbn in Hm; try contradiction; cbn [writes_of_micro].
-    - reflexivity.
-    - reflexivity.
-    - unfold add_pending. rewrite app_nil_r. destruct s; reflexivity. }
-  assert (Hs' : s' = cond_commit lazy k c2 s1) by reflexivity.
+  induction tr as [|mc tr IH]; [reflexivity|].
+  unfold issued_t, twrites in *. cbn [flat_map map writes_of]. rewrite map_app, stamp_fst, IH. reflexivity.
+Qed.
+
+(* every write of a run of write statements was issued before the step that follows it *)
+Lemma issued_before : forall a t m c rest w ti,
+  mono_from t (a ++ (m, c) :: rest) -> In (w, ti) (issued_t a) -> ti <= r1 c.
+Proof.
+  induction a as [|[m0 c0] a IH]; intros t m c rest w ti Hm Hin; [destruct Hin|].
+  cbn [app mono_from] in Hm. destruct Hm as (H1 & H2 & H3 & H4).
+  unfold issued_t in Hin. cbn [flat_map] in Hin. apply in_app_or in Hin. destruct Hin as [Hin|Hin].
+  - unfold stamp in Hin. cbn [fst snd] in Hin. apply in_map_iff in Hin.
+    destruct Hin as (w' & Heq & _). inversion Heq; subst.
+    apply mono_from_mid in H4. lia.
+  - eapply IH; [exact H4|exact Hin].
+Qed.
+
+(* one counted block: write statements followed by their conditional_commit *)
+Lemma age_block : forall lazy s G tpre k c2 t,
+  age_inv s G -> Forall is_write (map fst tpre) ->
+  mono_from t (tpre ++ [(CondCommit k, c2)]) ->
+  let s' := run lazy s (tpre ++ [(CondCommit k, c2)]) in
+  (age_inv s' (G ++ issued_t tpre) /\ committed s' = committed s) \/
+  (age_inv s' [] /\ committed s' = committed s ++ map fst (G ++ issued_t tpre)).
+Proof.
+  intros lazy s G tpre k c2 t [HG Hage] Hw Hm s'.
+  pose proof (mono_from_mid _ _ _ _ _ Hm) as (_ & H12 & _).
+  set (s1 := add_pending s (twrites tpre)).
+  assert (Hs' : s' = cond_commit lazy k c2 s1).
+  { unfold s'. rewrite run_app, (run_writes lazy tpre s Hw). reflexivity. }
   destruct (cond_commit_cases lazy k c2 s1) as [(_ & E & _ & Ht)|(Hp & Hc & _ & _)].
-  - left. rewrite Hs', E, Hs1. cbn [committed set_n add_pending]. split; [|reflexivity].
+  - left. rewrite Hs', E. unfold s1. cbn [committed set_n add_pending]. split; [|reflexivity].
     split.
-    + cbn [pending]. rewrite map_app, stamp_fst, HG. reflexivity.
+    + cbn [pending]. rewrite map_app, issued_t_fst, HG. reflexivity.
     + intros w t' Hin. cbn [last_commit set_n add_pending]. apply in_app_or in Hin. destruct Hin as [Hin|Hin].
       * eapply Hage. exact Hin.
-      * unfold stamp in Hin. cbn [fst snd] in Hin. apply in_map_iff in Hin.
-        destruct Hin as (w' & Heq & _). inversion Heq; subst.
-        rewrite Hs1 in Ht. cbn [last_commit add_pending] in Ht. lia.
+      * pose proof (issued_before _ _ _ _ _ _ _ Hm Hin) as Hle.
+        unfold s1 in Ht. cbn [last_commit add_pending] in Ht. lia.
   - right. rewrite Hs'. split.
     + split; [symmetry; exact Hp|]. intros w t' [].
-    + rewrite Hc, Hs1. cbn [committed pending add_pending].
-      rewrite map_app, stamp_fst, HG. reflexivity.
+    + rewrite Hc. unfold s1. cbn [committed pending add_pending].
+      rewrite map_app, issued_t_fst, HG. reflexivity.
 Qed.
+
+Lemma issued_t_app : forall a b, issued_t (a ++ b) = issued_t a ++ issued_t b.
+Proof. intros. unfold issued_t. apply flat_map_app. Qed.
 
 Lemma age_inv_commit : forall t s, age_inv (do_commit t s) [].
 Proof. intros. split; [reflexivity|]. intros w t' []. Qed.
@@ -126,7 +173,7 @@ Lemma qscript_age : forall ms, qscript ms ->
       age_inv (run lazy s tr) G' /\ committed (run lazy s tr) = c0 ++ map fst X' /\
       X ++ G ++ issued_t tr = X' ++ G'.
 Proof.
-  induction 1 as [|ms Hq IH|ms Hq IH|w ms Hq IH|ws k ms Hk Hq IH|w ms Hq IH|w1 w2 ms Hq IH];
+  induction 1 as [|ms Hq IH|ms Hq IH|pre k ms Hpre Hk Hq IH|w ms Hq IH|w1 w2 ms Hq IH];
     intros lazy tr s G X c0 t Htr Hm Hinv Hc.
   - destruct tr; [|discriminate]. exists G, X. cbn. rewrite app_nil_r. auto.
   - (* Read *)
@@ -145,44 +192,28 @@ Proof.
       rewrite Hc, map_app, HG. apply app_assoc_reverse. }
     exists G', X'. split; [exact H1|split; [exact H2|]].
     rewrite <- H3. cbn [app]. rewrite app_assoc. reflexivity.
-  - (* Exec w; CondCommit 1 *)
-    apply map_fst_cons in Htr. destruct Htr as (c1 & tr1 & -> & Htr).
-    apply map_fst_cons in Htr. destruct Htr as (c2 & tr2 & -> & Htr).
-    assert (Hm2 : mono_from t [(Exec w, c1); (CondCommit 1, c2)]) by (cbn in *; tauto).
-    assert (Hm3 : mono_from (r3 c2) tr2) by (cbn in Hm; tauto).
-    change ((Exec w, c1) :: (CondCommit 1, c2) :: tr2)
-      with ([(Exec w, c1); (CondCommit 1, c2)] ++ tr2).
-    rewrite run_app.
-    destruct (age_block lazy s G (Exec w) 1 c1 c2 t Hinv I Hm2) as [(Ha & Hcm)|(Ha & Hcm)].
+  - (* write statements; CondCommit k *)
+    apply map_fst_block in Htr. destruct Htr as (tpre & c2 & tr2 & -> & Hmpre & Htr).
+    assert (Hw : Forall is_write (map fst tpre)) by (rewrite Hmpre; exact Hpre).
+    pose proof (mono_from_mid _ _ _ _ _ Hm) as (_ & _ & _ & Hm3).
+    assert (Hm2 : mono_from t (tpre ++ [(CondCommit k, c2)])).
+    { clear - Hm. revert t Hm. induction tpre as [|[m0 c0'] a IHa]; intros t Hm.
+      - cbn in *. tauto.
+      - cbn [app mono_from] in *. destruct Hm as (K1 & K2 & K3 & K4). auto. }
+    change (tpre ++ (CondCommit k, c2) :: tr2) with (tpre ++ [(CondCommit k, c2)] ++ tr2).
+    rewrite app_assoc, run_app.
+    assert (Hiss : issued_t ((tpre ++ [(CondCommit k, c2)]) ++ tr2) = issued_t tpre ++ issued_t tr2).
+    { rewrite !issued_t_app. unfold issued_t at 2. cbn. rewrite app_nil_r. reflexivity. }
+    rewrite Hiss.
+    destruct (age_block lazy s G tpre k c2 t Hinv Hw Hm2) as [(Ha & Hcm)|(Ha & Hcm)].
     + destruct (IH lazy tr2 _ _ X c0 (r3 c2) Htr Hm3 Ha) as (G' & X' & H1 & H2 & H3).
       { rewrite Hcm. exact Hc. }
       exists G', X'. split; [exact H1|split; [exact H2|]].
-      rewrite <- H3. unfold issued_t. rewrite flat_map_app. cbn [flat_map]. rewrite app_nil_r.
-      rewrite <- !app_assoc. reflexivity.
-    + destruct (IH lazy tr2 _ _ (X ++ G ++ stamp (Exec w, c1)) c0 (r3 c2) Htr Hm3 Ha) as (G' & X' & H1 & H2 & H3).
+      rewrite <- H3. rewrite <- !app_assoc. reflexivity.
+    + destruct (IH lazy tr2 _ _ (X ++ G ++ issued_t tpre) c0 (r3 c2) Htr Hm3 Ha) as (G' & X' & H1 & H2 & H3).
       { rewrite Hcm, Hc, !map_app. rewrite <- !app_assoc. reflexivity. }
       exists G', X'. split; [exact H1|split; [exact H2|]].
-      rewrite <- H3. unfold issued_t. rewrite flat_map_app. cbn [flat_map app]. rewrite app_nil_r.
-      rewrite <- !app_assoc. reflexivity.
-  - (* ExecMany ws; CondCommit k *)
-    apply map_fst_cons in Htr. destruct Htr as (c1 & tr1 & -> & Htr).
-    apply map_fst_cons in Htr. destruct Htr as (c2 & tr2 & -> & Htr).
-    assert (Hm2 : mono_from t [(ExecMany ws, c1); (CondCommit k, c2)]) by (cbn in *; tauto).
-    assert (Hm3 : mono_from (r3 c2) tr2) by (cbn in Hm; tauto).
-    change ((ExecMany ws, c1) :: (CondCommit k, c2) :: tr2)
-      with ([(ExecMany ws, c1); (CondCommit k, c2)] ++ tr2).
-    rewrite run_app.
-    destruct (age_block lazy s G (ExecMany ws) k c1 c2 t Hinv I Hm2) as [(Ha & Hcm)|(Ha & Hcm)].
-    + destruct (IH lazy tr2 _ _ X c0 (r3 c2) Htr Hm3 Ha) as (G' & X' & H1 & H2 & H3).
-      { rewrite Hcm. exact Hc. }
-      exists G', X'. split; [exact H1|split; [exact H2|]].
-      rewrite <- H3. unfold issued_t. rewrite flat_map_app. cbn [flat_map]. rewrite app_nil_r.
-      rewrite <- !app_assoc. reflexivity.
-    + destruct (IH lazy tr2 _ _ (X ++ G ++ stamp (ExecMany ws, c1)) c0 (r3 c2) Htr Hm3 Ha) as (G' & X' & H1 & H2 & H3).
-      { rewrite Hcm, Hc, !map_app. rewrite <- !app_assoc. reflexivity. }
-      exists G', X'. split; [exact H1|split; [exact H2|]].
-      rewrite <- H3. unfold issued_t. rewrite flat_map_app. cbn [flat_map app]. rewrite app_nil_r.
-      rewrite <- !app_assoc. reflexivity.
+      rewrite <- H3. cbn [app]. rewrite <- !app_assoc. reflexivity.
   - (* Exec w; Commit *)
     apply map_fst_cons in Htr. destruct Htr as (c1 & tr1 & -> & Htr).
     apply map_fst_cons in Htr. destruct Htr as (c2 & tr2 & -> & Htr).
@@ -245,3 +276,16 @@ Proof.
   split; [cbn; lia|].
   exists 7, 100000000. split; [left; reflexivity|]. vm_compute. reflexivity.
 Qed.
+
+(* sensitivity: the script insert_many had before a00ceb1 (every upsert a counted block of
+   its own).  A list of three id-carrying events handed over 30 s after the last commit: the
+   first upsert flushes and restarts the ten seconds, the other two are young and are still
+   pending when the call returns.  With the script of [expand] nothing is pending. *)
+Lemma pre_fix_bulk_partly_flushed :
+  let at_ t := mkClk t t t in
+  let tr_old := map (fun m => (m, at_ 30000000)) (pre_a00ceb1_insert_many [1; 2; 3] []) in
+  let tr_new := map (fun m => (m, at_ 30000000)) (expand (InsertMany [1; 2; 3] [])) in
+  mono_from 30000000 tr_old /\ 30000000 - last_commit (init [] 0) > MAX_AGE /\
+  pending (run true (init [] 0) tr_old) = [2; 3] /\ recover (run true (init [] 0) tr_old) = [1] /\
+  pending (run true (init [] 0) tr_new) = [] /\ recover (run true (init [] 0) tr_new) = [1; 2; 3].
+Proof. vm_compute. repeat split; try reflexivity; intros H; discriminate H. Qed.
